@@ -292,7 +292,7 @@ def copy(rc):
 _BN_ADD = '        if u in self.nodes() and v in self.nodes() and nx.has_path(self, v, u):\n            raise ValueError(\n                "Loops are not allowed. Adding the edge from (%s->%s) forms a loop."'
 
 
-@rule("C15.defuse", "anchored files: every parameter is read, no value is computed and dropped (generic def-use detectors, triaged hit list)", floor=2)
+@rule("C15.defuse", "anchored files: no parameter is accepted and ignored (generic def-use detector, triaged exemptions)", floor=2)
 def defuse(rc):
     from . import shared as _sh
     _sh.defuse_rule(rc, _sh.anchor_files("C15"))
